@@ -174,3 +174,12 @@ package throttle
 //@     pure
 //@   callee getLimitCfg() (c)
 //@     pure
+
+// Start: a configuration whose bucket ring is empty or whose interval is not positive
+// is refused before anything is built from it (the first event would otherwise divide
+// by zero in timeToBucketID or ask makeslice for a negative length).
+
+//@ func (*Plugin).Start
+//@   option allow-exit yes
+//@   requires typeis(config, "*github.com/ozontech/file.d/plugin/action/throttle.Config") && params != nil
+//@   assert at "distrCfg := p.config.LimitDistribution.toInternal()" p.config.BucketInterval_ > 0 && p.config.BucketsCount >= 1
